@@ -60,3 +60,22 @@ def declare(reg):
 
     reg.properties.setdefault("C06", {}).setdefault("bounded", []).append(
         {"name": "answered-e2e", "module": "harness.e2e", "func": "Answered"})
+
+    # ---- C01: the gate for non-UID FETCH/STORE/SEARCH and the flush -------------------------------------------
+    PN = "self.pending_notifications"
+    reg.contract(
+        C, "BaseClientHandler.pending_expunges", params={"self": "ref:BaseClientHandler"}, ret="bool",
+        # true exactly when ANY queued notification is an EXPUNGE (not just the last one)
+        ensures={"any-expunge": f"result == exists(lambda j: 0 <= j and j < len({PN}) and 'EXPUNGE' in {PN}[j])"},
+        props=["C01"],
+    )
+    reg.contract(
+        C, "BaseClientHandler.send_pending_notifications", params={"self": "ref:BaseClientHandler"},
+        ensures={
+            # everything queued is sent, in order, and the queue is emptied (the synchronisation point of NOOP/CHECK/...)
+            "flushed-in-order": f"appended(self.client.g_out, old(self.client.g_out), old({PN})) and len({PN}) == 0",
+        },
+        modifies=["self.pending_notifications", "ClientProxy.g_out"],
+        is_async=True,
+        props=["C01"],
+    )
